@@ -4,6 +4,7 @@ import AFModel.FloatOps
 import AFModel.SearchTable
 import AFModel.Generated.C04
 import AFModel.LogPrior
+import AFModel.ResumeCheck
 import AFProofs.Lemmas.LogPrior
 
 /-!
@@ -459,5 +460,125 @@ example : (match (fitnessCall ratFom { fomIsLL := false, convertChi := true, sto
     | .value x => x | .raises => 0) = -32 := by decide +kernel
 /-- a shorter vector: one term -/
 example : logPriorList ratLp tbl₂ t₂ [5] = [2] := by decide +kernel
+
+end AF.C04
+
+
+/-! ## `check_log_likelihood` on resume -/
+
+namespace AF.C04
+open AF
+
+/-- **The check raises exactly when the stored and the recomputed likelihood are not close**: it is
+switched on (no test mode, configuration on), a stored sample exists, the model accepts its
+parameters, and the likelihood now returns NaN or a number `np.isclose` rejects. -/
+theorem check_raises_iff (co : CloseOps V) (testMode cfgOn : Bool) (s : Stored V) (g) (o : Outcome V) :
+    checkLL co testMode cfgOn s g o = .searchException ↔
+      testMode = false ∧ cfgOn = true ∧ ∃ llOld params i, s = .sample llOld params ∧ g params = .ok i ∧
+        (o = .nan ∨ ∃ llNew, o = .fin llNew ∧ isClose co llOld llNew = false) := by
+  unfold checkLL
+  cases testMode <;> cases cfgOn <;> simp
+  cases s with
+  | noSummary => simp
+  | noSample => simp
+  | sample llOld params =>
+    cases hg : g params with
+    | error e => simp [hg]
+    | ok i =>
+      cases o with
+      | fin llNew =>
+        by_cases hc : isClose co llOld llNew = true
+        · simp [hg, hc]
+        · simp [hg, hc]
+          exact ⟨llOld, params, ⟨rfl, rfl⟩, ⟨i, hg⟩, by simpa using hc⟩
+      | nan =>
+        simp [hg]
+        exact ⟨llOld, params, ⟨rfl, rfl⟩, i, hg⟩
+      | raisesFit => simp [hg]
+      | raisesOther => simp [hg]
+
+/-- the check is silent when it is switched off or there is nothing to resume from -/
+theorem check_passes_when_off (co : CloseOps V) (testMode cfgOn : Bool) (s : Stored V) (g) (o : Outcome V)
+    (h : testMode = true ∨ cfgOn = false ∨ s = .noSummary ∨ s = .noSample) :
+    checkLL co testMode cfgOn s g o = .passes := by
+  unfold checkLL
+  rcases h with h | h | h | h
+  · subst h; simp
+  · subst h; cases testMode <;> simp
+  · subst h; cases testMode <;> cases cfgOn <;> simp
+  · subst h; cases testMode <;> cases cfgOn <;> simp
+
+/-- what else can leave the constructor: the model rejecting the stored vector, the likelihood raising -/
+theorem check_escapes_iff (co : CloseOps V) (testMode cfgOn : Bool) (s : Stored V) (g) (o : Outcome V) :
+    checkLL co testMode cfgOn s g o = .escapes ↔
+      testMode = false ∧ cfgOn = true ∧ ∃ llOld params, s = .sample llOld params ∧
+        ((∃ e, g params = .error e) ∨ ((∃ i, g params = .ok i) ∧ (o = .raisesFit ∨ o = .raisesOther))) := by
+  unfold checkLL
+  cases testMode <;> cases cfgOn <;> simp
+  cases s with
+  | noSummary => simp
+  | noSample => simp
+  | sample llOld params =>
+    cases hg : g params with
+    | error e =>
+      simp [hg]
+      exact ⟨llOld, params, ⟨rfl, rfl⟩, Or.inl ⟨e, hg⟩⟩
+    | ok i =>
+      cases o with
+      | fin llNew => by_cases hc : isClose co llOld llNew = true <;> simp [hg, hc]
+      | nan => simp [hg]
+      | raisesFit =>
+        simp [hg]
+        exact ⟨llOld, params, ⟨rfl, rfl⟩, Or.inr ⟨i, hg⟩⟩
+      | raisesOther =>
+        simp [hg]
+        exact ⟨llOld, params, ⟨rfl, rfl⟩, Or.inr ⟨i, hg⟩⟩
+
+/-- **The check never alters a figure of merit** (nor a history): an object built with `paths`
+either is not built, or answers every sequence of calls exactly as an object built without. -/
+theorem resume_never_alters (fo : FomOps V) (co : CloseOps V) (cfg : FitCfg V) (g) (lp)
+    (paths : Option (Bool × Bool × Stored V × Outcome V)) (calls : List (List V × Outcome V)) (r) :
+    constructAndRun fo co cfg g lp paths calls = .ok r →
+      constructAndRun fo co cfg g lp none calls = .ok r := by
+  intro h
+  unfold constructAndRun at h ⊢
+  cases paths with
+  | none => exact h
+  | some p =>
+    obtain ⟨tm, on, s, o⟩ := p
+    simp only at h
+    cases hc : checkLL co tm on s g o <;> simp [hc] at h
+    simp [h]
+
+/-- ... and it is built exactly when the check passes -/
+theorem resume_built_iff (fo : FomOps V) (co : CloseOps V) (cfg : FitCfg V) (g) (lp)
+    (tm on : Bool) (s : Stored V) (o : Outcome V) (calls : List (List V × Outcome V)) :
+    (∃ r, constructAndRun fo co cfg g lp (some (tm, on, s, o)) calls = .ok r) ↔ checkLL co tm on s g o = .passes := by
+  unfold constructAndRun
+  constructor
+  · rintro ⟨r, hr⟩
+    cases hc : checkLL co tm on s g o <;> simp [hc] at hr
+    rfl
+  · intro hc
+    exact ⟨runCalls fo cfg g lp {} calls, by simp [hc]⟩
+
+/-- `np.isclose` on finite numbers is the stated inequality; equal infinities are close -/
+theorem isClose_finite (co : CloseOps V) (a b : V) (ha : co.isFinite a = true) (hb : co.isFinite b = true) :
+    isClose co a b = co.le (co.abs (co.sub a b)) (co.add co.atol (co.mul co.rtol (co.abs b))) := by
+  simp [isClose, ha, hb]
+
+/-! ### non-vacuity (Float, evaluated by the kernel) -/
+
+/-- stored −100.0, recomputed −100.0005: within `1e-8 + 1e-5·100.0005`; recomputed −100.002: not -/
+example : isClose floatClose (-100.0) (-100.0005) = true ∧ isClose floatClose (-100.0) (-100.002) = false := by
+  decide +kernel
+example : checkLL floatClose false true (.sample (-100.0) [0.5]) gLen1 (.fin (-100.002)) = .searchException := by
+  decide +kernel
+example : checkLL floatClose false true (.sample (-100.0) [0.5]) gLen1 (.fin (-100.0005)) = .passes := by
+  decide +kernel
+example : checkLL floatClose false true (.sample (-100.0) [0.5, 0.5]) gLen1 (.fin (-100.0)) = .escapes := by
+  decide +kernel
+example : checkLL floatClose true true (.sample (-100.0) [0.5]) gLen1 (.fin 3.0) = .passes := by
+  decide +kernel
 
 end AF.C04
